@@ -124,7 +124,7 @@ def check_skipfile(ctx, out, rule="C01.skipfile"):
 def check_queue(ctx, out):
     """FIFO discipline of the deleted-line queue and flush at every hunk end."""
     n = 0
-    allowed = {"new", "push_back", "pop_front", "clear", "is_empty", "len", "with_capacity"}
+    allowed = {"new", "push_back", "pop_front", "front", "clear", "is_empty", "len", "with_capacity"}     # `front` reads the oldest element: first-with-first is kept
     bad = []
     qn = 0
     for b in diff_bodies(ctx):
@@ -194,6 +194,8 @@ def check_units(ctx, out):
         uses_chars = any(callee_matches(t, r"similar::TextDiff.*::from_chars$") for bi, t in b.calls())
         if not uses_chars:
             continue
+        # helpers (an offset-table struct with `chars_range(index, len)` methods, say) are looked through
+        b = ctx.inl(b, skip=ctx.domain_api, tag="domain", sugar=True)
         for bi, j, s in b.assigns():
             rv = s["rv"]
             if rv["k"] == "agg" and rv.get("agg") == "adt" and rv.get("path") in ("std::ops::Range", "std::ops::RangeInclusive"):
@@ -460,7 +462,7 @@ def shared_state_affects(ctx, out, vb):
             if not any(d[1] not in blocks for d in vb.defs().get(l, [])):
                 continue
             ty = loc["ty"]
-            if shared.VIOL_MAP.search(ty) or re.search(r"(HashMap|HashSet|BTreeMap|BTreeSet)<\(std::path::PathBuf, std::string::String\)", ty):
+            if shared.VIOL_MAP.search(ty) or re.search(r"(HashMap|HashSet|BTreeMap|BTreeSet)<\(&?(std::path::PathBuf|std::path::Path), &?(std::string::String|str)\)", ty):
                 continue
             if re.search(r"::Iter<|::IterMut<|::IntoIter<|std::iter::|::Split<", ty):
                 continue
